@@ -200,6 +200,11 @@ static void run(unsigned na, unsigned nb, unsigned k)
   }
 #if TRACKED
   ledgerExpectEmpty();
+#if CONT == 3
+  // PoolList constructs each element in place and never copies or assigns it afterwards (C05)
+  vf_assert(g_ledger.copies == 0, "PoolList never copy-constructs an element");
+  vf_assert(g_ledger.assigns == 0, "PoolList never assigns an element");
+#endif
 #endif
   vf_reach("end");
 }
